@@ -5,7 +5,10 @@ import (
 	"fmt"
 
 	"verif/internal/cachemon"
+	"verif/internal/mfs"
 	"verif/internal/sup"
+
+	"github.com/goatcms/goatcore/filesystem"
 )
 
 func plan(tier string, seed int64) []sup.Batch {
@@ -16,6 +19,7 @@ func plan(tier string, seed int64) []sup.Batch {
 	var bs []sup.Batch
 	bs = append(bs, sup.Chunk("clean", "clean", nClean, (nClean+7)/8, 1, map[string]any{"ops": ops})...)
 	bs = append(bs, sup.Chunk("trigger", "trigger", nTrig, (nTrig+7)/8, 1, map[string]any{"ops": ops})...)
+	bs = append(bs, sup.Chunk("faultycommit", "faultycommit", nClean/2, (nClean/2+3)/4, 1, map[string]any{"ops": ops})...)
 	bs = append(bs, sup.Batch{Name: "witness", Kind: "witness", From: 0, To: len(cachemon.Witnesses()), Procs: 1})
 	return bs
 }
@@ -24,7 +28,7 @@ func main() {
 	sup.Main(sup.Prop{
 		ID:    "C07",
 		Level: "exploration",
-		Rule: "generated cache histories (initial remote tree of 0–6 nodes; writes, stream writes, mkdirs, removes, copies, reads, Commits; path spellings; child views of the cache) are executed on fscache.Cache over a memory or disk remote and on the tree model initialised with the remote's tree; after every operation the read-type result and the whole tree observable through the cache (ReadDir+Lstat+IsExist/IsFile/IsDir+ReadFile on every node) are compared with the model. clean stratum: the generator never issues an operation that matches a listed finding's trigger (removes only of never-committed buffered files, copies only of files onto absent destinations, no operation the model rejects) – every divergence is a violation; trigger stratum: unrestricted histories, a divergence must satisfy a listed finding's class predicate (evaluated on the model's bookkeeping) or it is a violation; witness: the listed findings' minimal histories replayed verbatim. distinct = distinct operation sequences; non-trivial = ≥1 successful mutation through the cache",
+		Rule:  "generated cache histories (initial remote tree of 0–6 nodes; writes, stream writes, mkdirs, removes, copies, reads, Commits; path spellings; child views of the cache) are executed on fscache.Cache over a memory or disk remote and on the tree model initialised with the remote's tree; after every operation the read-type result and the whole tree observable through the cache (ReadDir+Lstat+IsExist/IsFile/IsDir+ReadFile on every node) are compared with the model. clean stratum: the generator never issues an operation that matches a listed finding's trigger (removes only of never-committed buffered files, copies only of files onto absent destinations, no operation the model rejects) – every divergence is a violation; trigger stratum: unrestricted histories, a divergence must satisfy a listed finding's class predicate (evaluated on the model's bookkeeping) or it is a violation; faultycommit: clean histories over a fault-injecting remote – half of the Commits meet one remote failure; after a failed Commit the view must still show every pending operation; witness: the listed findings' minimal histories replayed verbatim. distinct = distinct operation sequences; non-trivial = ≥1 successful mutation through the cache",
 		Assumptions: []string{
 			"a cache operation that reports an error is not applied to the model (it must then have no visible effect)",
 			"histories in which the cache accepts an operation the tree model rejects are ambiguous and stop without verdict",
@@ -51,13 +55,21 @@ func main() {
 				opt := cachemon.Options{CheckReads: true, RemoteKind: []string{"mem", "mem", "disk"}[idx%3]}
 				init := cachemon.GenInit(rng)
 				c.Case(idx, map[string]any{"stratum": b.Kind, "idx": idx, "remote": opt.RemoteKind}, func(r *sup.CaseResult) {
-					run, err := cachemon.NewRun(opt, init, nil)
+					var faults *mfs.Faults
+					var wrap func(filesystem.Filespace) filesystem.Filespace
+					if b.Kind == "faultycommit" {
+						faults = &mfs.Faults{}
+						wrap = func(in filesystem.Filespace) filesystem.Filespace { return mfs.NewFaultFS(in, faults, "remote") }
+					}
+					run, err := cachemon.NewRun(opt, init, wrap)
 					if err != nil {
 						r.Inconclusive = err.Error()
 						return
 					}
+					run.Faults = faults
 					defer run.Cleanup()
-					d := cachemon.Drive(run, rng, nops, b.Kind == "clean", idx%2 == 0)
+					d := cachemon.Drive(run, rng, nops, b.Kind != "trigger", idx%2 == 0)
+					r.AddObs("failed_commits_followed_by_view_check", run.FailedCommits)
 					if d != nil && d.Prop == "C07" {
 						cachemon.Report(r, run, d, b.Kind, b.Kind == "trigger")
 					}
@@ -82,7 +94,7 @@ func main() {
 			}
 		},
 		Finish: func(t *sup.Totals) string {
-			if t.Obs["histories_clean"] == 0 || t.Obs["histories_trigger"] == 0 || t.Obs["whole_view_comparisons"] < 1000 {
+			if t.Obs["histories_clean"] == 0 || t.Obs["histories_trigger"] == 0 || t.Obs["whole_view_comparisons"] < 1000 || t.Obs["failed_commits_followed_by_view_check"] == 0 {
 				return "a stratum observed nothing"
 			}
 			return ""
